@@ -827,6 +827,89 @@ def chunks(xs, n):
     return [xs[i:i + k] for i in range(0, len(xs), k)]
 
 
+
+# ---------------------------------------------------------------- loop.cycle: every argument shape
+#
+# "loop.cycle(*args): cycles among a list of sequences" - the value is args[index0 % len(args)], whatever the
+# arguments are: a single list / tuple / string argument is ONE item (it is returned as it is, not unpacked).
+
+CYCLE_ARGS = [
+    ("'a'",), ("'ab'",), ("['a', 'b']",), ("('a', 'b')",), ("[]",), ("()",), ("''",), ("none",), ("[['a', 'b']]",),
+    ("{'k': 1}",), ("x",), ("seq",), ("seq2",), ("tup",), ("'a'", "'b'"), ("['a', 'b']", "'c'"), ("'c'", "['a', 'b']"),
+    ("['a']", "['b']"), ("[]", "[]"), ("seq", "tup"), ("*seq",), ("*seq2",), ("*tup",), ("*'ab'",), ("'z'", "*seq"),
+    ("*[seq]",), ("[]", "'a'", "()"), ("'a'", "'b'", "'c'", "'d'"), ("1", "2.5", "true"),
+]
+CYCLE_DATA = {"seq": ["p", "q"], "seq2": ["p"], "tup": ("s", "t", "u")}
+
+
+def cycle_ref(args, pos, x):
+    env = dict(CYCLE_DATA, x=x, none=None, true=True)
+    vals = eval("[" + ", ".join(args) + "]", {"__builtins__": {}}, env)  # the menu is Python-compatible on purpose
+    return vals[pos % len(vals)]
+
+
+def cycle_shard(arg):
+    is_async, nmax = arg
+    core.import_all_jinja()
+    import jinja2
+
+    p = core.Part()
+    env = jinja2.Environment(enable_async=is_async, cache_size=0)
+    unpacked = 0
+    for args in CYCLE_ARGS:
+        call = "loop.cycle(" + ", ".join(args) + ")"
+        for wrap in ("{{ %s }}", "{{ %s|string }}", "{%% set v = %s %%}{{ v }}", "{{ [%s]|first }}"):
+            for outer in ("plain", "filtered", "nested", "recursive"):
+                body = "<" + (wrap % call) + ">"
+                if outer == "plain":
+                    src = "{% for x in xs %}" + body + "{% endfor %}"
+                elif outer == "filtered":
+                    src = "{% for x in xs if x >= 0 %}" + body + "{% endfor %}"
+                elif outer == "nested":
+                    src = "{% for y in [0] %}{% for x in xs %}" + body + "{% endfor %}{% endfor %}"
+                else:
+                    src = "{% for x in xs recursive %}" + body + "{% endfor %}"
+                tmpl = env.from_string(src)
+                for n in range(nmax + 1):
+                    for form in ("list", "gen"):
+                        items = list(range(n))
+                        xs = items if form == "list" else (i for i in items)
+                        p.evals += 1
+                        want = "".join("<%s>" % (cycle_ref(args, i, items[i]),) for i in range(n))
+                        data = dict(CYCLE_DATA, xs=xs)
+                        try:
+                            got = run_coro(tmpl.render_async(**data)) if is_async else tmpl.render(**data)
+                        except Exception as e:  # noqa: BLE001
+                            got = "EXC " + type(e).__name__
+                        if n and any(a.startswith(("[", "(", "seq", "tup", "*")) for a in args):
+                            unpacked += 1
+                        if got != want:
+                            p.violation(f"C07/cycle-args/{'async' if is_async else 'sync'}/{'star' if any(a.startswith('*') for a in args) else 'plain'}-{len(args)}", {
+                                "msg": f"{src!r} over {form} of {n} item(s) with {CYCLE_DATA}: got {got!r}, reference {want!r} "
+                                       f"(args[index0 % len(args)])",
+                                "script": ("import jinja2\n"
+                                           f"env = jinja2.Environment(); t = env.from_string({src!r})\n"
+                                           f"print(repr(t.render(xs=list(range({n})), **{CYCLE_DATA!r})), 'reference', {want!r})\n")})
+                        p.sig(("cycle", args, n, want[:12]))
+    # zero arguments: documented TypeError
+    for n in (1, 2):
+        p.evals += 1
+        try:
+            t = env.from_string("{% for x in xs %}{{ loop.cycle() }}{% endfor %}")
+            got = run_coro(t.render_async(xs=list(range(n)))) if is_async else t.render(xs=list(range(n)))
+        except TypeError:
+            got = "TypeError"
+        except Exception as e:  # noqa: BLE001
+            got = "EXC " + type(e).__name__
+        if got != "TypeError":
+            p.violation(f"C07/cycle-args/{'async' if is_async else 'sync'}/no-arguments", {
+                "msg": f"loop.cycle() without arguments: {got!r}, documented TypeError", "script": "# see msg\n"})
+    if not unpacked:
+        raise core.HarnessError("cycle family never passed a sequence argument")
+    p.count("cycle_cases", p.evals)
+    return p
+
+
 def run(ctx: core.Ctx):
     core.import_all_jinja()
     nmax = 4 if ctx.quick else 6
@@ -859,6 +942,7 @@ def run(ctx: core.Ctx):
     ctx.pmap(ctl_shard, [(a, c, nmax) for a in (False, True) for c in chunks(combos, 16)])
     ctx.pmap(blk_shard, [(a, nmax) for a in (False, True)])
     ctx.pmap(outer_shard, [(a, nmax) for a in (False, True)])
+    ctx.pmap(cycle_shard, [(a, nmax) for a in (False, True)])
     tr = ctx.counters.get("transitions", 0)
     ctx.cov["states"] = ctx.counters.get("states", 0)
     ctx.cov["transitions"] = tr
@@ -867,4 +951,5 @@ def run(ctx: core.Ctx):
     ctx.cov["fixpoint_reached"] = not ctx.counters.get("no_fixpoint")
     ctx.cov["bounds"] = {"max_length": nmax, "queries_per_iteration": k, "forest_nodes": 4 if ctx.quick else 5,
                          "forest_depth": 3, "flat_history_depth": fdepth + 1,
+                         "cycle_argument_shapes": len(CYCLE_ARGS), "cycle_cases": ctx.counters.get("cycle_cases", 0),
                          "iterable_forms_sync": list(SYNC_FORMS), "iterable_forms_async": list(ASYNC_FORMS)}
